@@ -22,7 +22,8 @@ def cases(chk):
         yield c["source"], c["n_init"], "corpus"
     n = 220 if chk.tier == "thorough" else 28
     for _ in range(n):
-        prog = R.gen_program(chk.rng, chk.rng.randint(3, 6), codeblocks=chk.rng.random() < 0.2)
+        prog = R.gen_program(chk.rng, chk.rng.randint(3, 6), codeblocks=chk.rng.random() < 0.2,
+                             struct=chk.rng.random() < 0.3, calls=chk.rng.random() < 0.2)
         body = list(prog.body)
         x = chk.rng.random()
         origin = "gen"
@@ -39,14 +40,15 @@ def cases(chk):
 def prepare(parsed, i, j, enter_data=False):
     nodes = parsed.region_nodes(i, j)
     real = R.real_acc_clauses(parsed, i, j, enter_data=enter_data)
-    items = R.item_sexps(parsed, nodes)
+    executable = not R.non_minif(nodes)
+    items = R.item_sexps(parsed, nodes) if executable else R.access_items(parsed, nodes)
     excluded = any(it == ["x"] for it in items)
-    lines = [R.line("trans", 1 if enter_data else 0, items)]
+    lines = [R.line("trans", 1 if enter_data else 0, parsed.parent_pairs(), items)]
     ctx = {"parsed": parsed, "i": i, "j": j, "enter": enter_data, "real": real, "excluded": excluded, "nexec": 0}
     if not excluded and nodes:
-        region = parsed.export(nodes)
+        region = parsed.export(nodes, access_only=not executable)
         lines.append(R.line("clauses", region))
-        if isinstance(real, dict):
+        if isinstance(real, dict) and executable:
             try:
                 prefix = parsed.prefix(i)
             except minif.Unsupported:
@@ -68,10 +70,10 @@ def conclude(ctx, out):
     else:
         m = common.parse_sx(out[0])
         model = {k: sorted(id2n[x] for x in m[n]) for n, k in enumerate(("copyin", "copyout", "copy"))}
-    res = {"real": real, "model": model, "fwor": None, "cnr": None, "fails": [], "differing": []}
+    res = {"real": real, "model": model, "fwor": None, "cnr": None, "ccov": None, "fails": [], "differing": []}
     if len(out) > 1:
         m = common.parse_sx(out[1])
-        res["fwor"], res["cnr"] = m[3] == 1, m[4] == 1
+        res["fwor"], res["cnr"], res["ccov"] = m[3] == 1, m[4] == 1, m[5] == 1
     per, _ = parsed.queries()
     if not isinstance(real, dict):
         return res
@@ -100,15 +102,17 @@ def classify(res):
         return None
     if res["fwor"] or not res["real"]["copyout"]:
         return None                                   # C13_partial says this cannot happen
-    if res["cnr"] and any(n not in res["real"]["copyout"] for n in res["differing"]):
-        return None                                   # C13_deviation_partial says this cannot happen
+    if res["ccov"] and any(n not in res["real"]["copyout"] for n in res["differing"]):
+        return None                                   # C13_deviation_covered_partial says this cannot happen
     return "C13-partial-write-copyout"
 
 
 def run(chk):
     chk.cov["rule"] = ("every consecutive-statement region of the body of seeded MiniF routines (as C12), 30% of the "
                        "routines with an excluded node type (print CodeBlock / Return) at the top level, 20% with expression / "
-                       "FORALL CodeBlocks, DO WHILE loops (8% of statements), some regions retried "
+                       "FORALL CodeBlocks, DO WHILE loops (8% of statements), 30% with structure members (parents added to "
+                       "the clauses for the deep copy), 20% with calls of unknown intent (clauses only, not executed), "
+                       "dependent loop bounds, same-element write-then-read pairs, some regions retried "
                        "with an `enter data` directive in the routine, one empty region; non-trivial = accepted region "
                        "touching >=2 arrays, or a refusal; distinct by (source, region, enter_data)")
     chk.assumptions += [
@@ -129,7 +133,7 @@ def run(chk):
     chk.lean()
     chk.cov["lean_build_audit_s"] = round(time.time() - t0, 1)
     dist = {"regions": 0, "programs": 0, "accepted": 0, "refused": 0, "model_agrees": 0, "FullyWrittenOrRead": 0,
-            "CopyoutNotRead": 0, "executed": 0, "failing_known": 0, "skipped_unsupported": 0, "regions_with_while": 0}
+            "CopyoutNotRead": 0, "CopyoutCovered": 0, "executed": 0, "failing_known": 0, "skipped_unsupported": 0, "regions_with_while": 0}
     todo, lines = [], []
     first = True
     for src, n_init, origin in cases(chk):
@@ -167,6 +171,7 @@ def run(chk):
         dist["accepted" if isinstance(res["real"], dict) else "refused"] += 1
         dist["FullyWrittenOrRead"] += bool(res["fwor"])
         dist["CopyoutNotRead"] += bool(res["cnr"])
+        dist["CopyoutCovered"] += bool(res["ccov"])
         dist["executed"] += ctx["nexec"] > 0
         dist["regions_with_while"] += any(n.walk(WhileLoop) for n in ctx["parsed"].region_nodes(ctx["i"], ctx["j"]))
         nontriv = not isinstance(res["real"], dict) or len(set(sum(res["real"].values(), []))) >= 2
